@@ -63,11 +63,15 @@ def fa(node):
 
 
 def fb(node):
+    # (same behaviour as fa; the rebinding of u sits in the else clause of a loop)
     u = node["u0"]
     w = node["w0"]
     _kids(node["pre"])
-    if node["ru"] is not None:
-        u = node["ru"]
+    for _i in ():
+        pass
+    else:
+        if node["ru"] is not None:
+            u = node["ru"]
     if node["rw"] is not None:
         w = node["rw"]
     _kids(node["post"])
@@ -77,13 +81,17 @@ def fb(node):
 
 
 def fc(node):
+    # (same behaviour as fa; the rebinding of w sits in an exception handler that binds no name)
     u = node["u0"]
     w = node["w0"]
     _kids(node["pre"])
     if node["ru"] is not None:
         u = node["ru"]
-    if node["rw"] is not None:
-        w = node["rw"]
+    try:
+        raise KeyError
+    except KeyError:
+        if node["rw"] is not None:
+            w = node["rw"]
     _kids(node["post"])
     if node["raises"]:
         raise Boom(node["id"])
